@@ -135,9 +135,15 @@ func init() {
 			{Name: "release-race", World: "release", Weight: 1, Race: true},
 			{Name: "nathole", World: "nathole", Weight: 2, Park: 0.005, Gos: 0.02},
 			{Name: "nathole-race", World: "nathole", Weight: 1, Race: true},
+			// worlds in which real client code runs (frpc, and the ssh gateway's virtual client inside frps)
+			{Name: "authz-l2", World: "authz", Weight: 1, Park: 0.005, Gos: 0.02},
+			{Name: "ssh-churn-l2", World: "authz", Weight: 2, Park: 0.01, Gos: 0.03, Knobs: map[string]int{"ssh_gateway": 1, "ssh_churn": 1, "nattacks": 30}},
+			{Name: "liveness-l2", World: "liveness", Weight: 1, Park: 0.005, Gos: 0.02},
+			{Name: "client-l2", World: "client", Weight: 1, Park: 0.005, Gos: 0.02},
+			{Name: "client-race", World: "client", Weight: 1, Race: true, Park: 0.005, Gos: 0.02},
 		},
-		Stub: []string{"network (simnet)", "scripted peers (independent protocol implementation)", "users", "clock"},
-		Rule: "one run = real frps with an honest client and 2-5 authenticated scripted peers sending every message type with extreme field values (negative/huge numbers, empty/very long/non-UTF-8 strings, nil maps, malformed addresses) concurrently with user probes, visitor and NAT-hole traffic; plus race-detector builds of this and the lifecycle worlds, whose reports are classified by accessed object (map operation / channel close in frp server or pkg code); any frp panic or fatal error in any world counts; distinct = distinct event-log hash",
+		Stub: []string{"network (simnet)", "scripted peers and scripted server (independent protocol implementation)", "ssh client for the tunnel gateway", "users", "clock"},
+		Rule: "one run = real frps with an honest client and 2-5 authenticated scripted peers sending every message type with extreme field values (negative/huge numbers, empty/very long/non-UTF-8 strings, nil maps, malformed addresses) concurrently with user probes, visitor and NAT-hole traffic; plus race-detector builds of this and the lifecycle worlds, whose reports are classified by accessed object (map operation / channel close in frp server or pkg code); any frp panic or fatal error in any world counts, including frpc (client, liveness worlds) and the ssh gateway's virtual client inside frps (authz world); distinct = distinct event-log hash",
 	})
 	reg(&propSpec{ID: "C02", Level: "exploration",
 		Batches: []batchSpec{
@@ -511,6 +517,7 @@ func checkProperty(id, tier string, seed uint64, budget time.Duration, maxRuns i
 	var mu sync.Mutex
 	var founds []found
 	knownSeen := map[string]int{}
+	var otherSamples []string
 	nUnknown := 0
 	var otherProps = map[string]int{}
 	deadline := time.Now().Add(wall)
@@ -568,6 +575,11 @@ func checkProperty(id, tier string, seed uint64, budget time.Duration, maxRuns i
 						}
 					} else {
 						otherProps[v.Property+"/"+v.Oracle+"/"+v.Sig]++
+						if otherProps[v.Property+"/"+v.Oracle+"/"+v.Sig] == 1 {
+							// keep one replayable example of an alarm that belongs to another property's check
+							otherSamples = append(otherSamples, fmt.Sprintf("%s/%s/%s world=%s seed=%d faults=%v yield=%v tier=%s: %s", v.Property, v.Oracle, v.Sig, in.World, in.Seed, in.Faults, in.Yield != nil, in.Tier, v.Detail))
+							fmt.Fprintf(os.Stderr, "simrun: alarm of another property: %s\n%s\n", otherSamples[len(otherSamples)-1], tail(res.Crash, 40))
+						}
 					}
 				}
 				mu.Unlock()
@@ -665,7 +677,7 @@ func checkProperty(id, tier string, seed uint64, budget time.Duration, maxRuns i
 	return exit
 }
 
-var raceFrpFrame = regexp.MustCompile(`github\.com/fatedier/(frp/(server|pkg)|golib)/[^\s(]*`)
+var raceFrpFrame = regexp.MustCompile(`github\.com/fatedier/(frp/(server|pkg|client)|golib)/[^\s(]*`)
 
 // classifyRaces turns race-detector reports into C16 violations when the conflicting access is a map
 // operation or a channel close reached from frp server/pkg code on both sides.
